@@ -2,10 +2,12 @@
    DispatchDefs (recv_ok, entry_ok, exact_overload) plus the I/O glue shared with DispatchRun.
    Case lines are sequences of decimal integers (built by tools/p_C06.py from the harness' own catalogue dump
    and from the box descriptions the harness prints):
-     D rtl wc nconv {to from kind uid} nfunc {id arity kind throws guard nparams {bare const arith undef fullbare rank form fnar named}}
+     D rtl wc nconv {to from kind uid} nfunc {id arity kind throws guard retbare retconst retundef retrank nparams {bare const arith undef fullbare rank form fnar named}}
        nargs {ty const arith undef stor null ret paykind payload..}
      C rtl wc nconv {..} {param} {arg}
-     R rtl wc nconv {..} {param} {arg}          (value returned by a script function, handed to C++ as Ret) *)
+     R rtl wc nconv {..} {param} {arg}          (value returned by a script function, handed to C++ as Ret)
+     H rtl wc nconv {..} {param} {arg} n {paykind payload..}   (history: the variable [arg] is re-seated n times through a std::shared_ptr<T>&
+                                                               parameter, to objects with the given contents; then boxed_cast<param>) *)
 From Coq Require Import ZArith List Bool String Ascii Arith.
 From ChaiV Require Import StrUtil DispatchDefs.
 Import ListNotations.
@@ -68,12 +70,13 @@ Definition p_param (l : list Z) : option ((param * bool) * list Z) :=
 Record cfunc := mkcfunc { cf_f : func; cf_throws : bool }.
 Definition p_func (l : list Z) : option (cfunc * list Z) :=
   match l with
-  | id :: arity :: kind :: throws :: guard :: np :: r =>
+  | id :: arity :: kind :: throws :: guard :: rbare :: rconst :: rundef :: rrank :: np :: r =>
       match take_n (zn np) p_param r with
       | None => None
       | Some (ps, r') =>
           let k := match kind with 0%Z => KNative | 2%Z => KAttr | _ => KDyn (map snd ps) end in
-          Some (mkcfunc (mkfunc (zn id) arity (map fst ps) k (if (guard <? 0)%Z then None else Some (zn guard))) (zb throws), r')
+          Some (mkcfunc (mkfunc (zn id) arity (map fst ps) k (if (guard <? 0)%Z then None else Some (zn guard))
+                                (mkti (zn rbare) (zb rconst) false (zb rundef) true (zn rrank))) (zb throws), r')
       end
   | _ => None
   end.
@@ -139,6 +142,35 @@ Definition p_ccase (l : list Z) : option (bool * bool * list conv * param * box)
       | None => None
       end
   | None => None
+  end.
+
+(* history case: the k-th re-seat installs object IdObj (100 + k) *)
+Fixpoint p_pays (n k : nat) (l : list Z) : option (list (ident * pay) * list Z) :=
+  match n with
+  | O => Some ([], l)
+  | S n' => match p_pay l with
+            | Some (p, r) => match p_pays n' (S k) r with Some (xs, r') => Some ((IdObj (100 + k), p) :: xs, r') | None => None end
+            | None => None
+            end
+  end.
+Definition p_hcase (l : list Z) : option (bool * bool * list conv * param * box * list (ident * pay)) :=
+  match p_head l with
+  | Some ((rtl, wc, cs), r) =>
+      match p_param r with
+      | Some ((p, _), r') =>
+          match p_arg 0 r' with
+          | Some (a, n :: r'') => match p_pays (zn n) 0 r'' with Some (h, []) => Some (rtl, wc, cs, p, a, h) | _ => None end
+          | _ => None
+          end
+      | None => None
+      end
+  | None => None
+  end.
+(* specification of a history: the variable holds the object of the last re-seat, with its type and flags unchanged *)
+Definition spec_after (a : box) (h : list (ident * pay)) : box :=
+  match rev h with
+  | [] => a
+  | (i, py) :: _ => mkbox (b_ty a) (b_const a) (b_arith a) (b_undef a) (b_stor a) false i py (b_ret a)
   end.
 
 Definition mk_env (cs : list conv) (fs : list cfunc) (rtl : bool) : env :=
@@ -313,6 +345,13 @@ Definition spec_line (line : string) : string :=
       | None => "BADCASE"
       | Some l =>
           if String.eqb kind "D" then match p_dcase l with Some c => spec_d c | None => "BADCASE" end
+          else if String.eqb kind "H" then
+            match p_hcase l with
+            | Some (rtl, wc, cs, p, a, h) =>
+                let E := mk_env cs [] rtl in
+                "ALLOW " ++ join "/" (allowed E p (spec_after a h)) ++ " | ERRS " ++ join "," cast_errors
+            | None => "BADCASE"
+            end
           else match p_ccase l with
                | None => "BADCASE"
                | Some (rtl, wc, cs, p, a) =>
